@@ -14,7 +14,7 @@ import sweetpea as sp
 from . import designs as D
 from .designs import quiet
 
-CAP_SOLUTIONS = 250          # exhaust-based comparisons only below this many solutions
+CAP_SOLUTIONS = 300          # exhaust-based comparisons only below this many solutions
 CAP_CANDIDATES = 40000       # Spec.validSeqs candidate cap
 RANDOM_SPACE = 6000          # RandomGen is run only when its candidate-key space is at most this large
 
@@ -486,6 +486,31 @@ def _corpus_families(big):
     out.append({"factors": [oa2, ob, bad, ins], "block": {"k": "nest", "cs": [], "align": None,
                 "outer": {"k": "cross", "design": [0, 1, 2], "crossing": [0, 1], "rcc": False, "cs": [{"k": "Exclude", "f": 2, "l": 0}]},
                 "inner": {"k": "cross", "design": [10], "crossing": [10], "rcc": True, "cs": []}}})
+    out.mark()
+    # combinators of combinators: Repeat of a Merge of a Nest (sustain counts must survive the outer combinator)
+    ra, rb, rc = _sf(0, ["a1", "a2"]), _sf(10, ["b1", "b2"]), _sf(11, ["c1", "c2"])
+    nestd = {"k": "nest", "cs": [], "align": None,
+             "outer": {"k": "cross", "design": [0], "crossing": [0], "rcc": True, "cs": []},
+             "inner": {"k": "cross", "design": [10, 11], "crossing": [10, 11], "rcc": True, "cs": []}}
+    for cs in ([], [{"k": "MinimumTrials", "n": 10}], [{"k": "MinimumTrials", "n": 16}]):
+        out.append({"factors": [ra, rb, rc], "block": {"k": "repeat", "cs": cs,
+                    "b": {"k": "merge", "bs": [nestd], "cs": [], "mode": "repeat", "align": None}}})
+    out.append({"factors": [ra, rb, rc], "block": {"k": "merge", "bs": [nestd], "cs": [{"k": "MinimumTrials", "n": 10}], "mode": "repeat", "align": None}})
+    out.mark()
+    # repeated blocks whose own constraint is on a derived factor with a complex window that is *not* crossed:
+    # a Transition, and a width-2 window with the explicit start 0 (it has a level in the first trial of every window)
+    rcol, rsz = _sf(0, ["r", "g"]), _sf(1, ["x", "y"])
+    rtr = _transition(3, 0, 2)
+    out.append({"factors": [rcol, rtr], "block": {"k": "repeat", "cs": [{"k": "MinimumTrials", "n": 6}],
+                "b": {"k": "cross", "design": [0, 3], "crossing": [0], "rcc": True, "cs": [{"k": "AtMostKInARow", "n": 1, "f": 3, "l": 0}]}}})
+    out.append({"factors": [rcol, rsz, rtr], "block": {"k": "repeat", "cs": [{"k": "MinimumTrials", "n": 8}],
+                "b": {"k": "cross", "design": [0, 1, 3], "crossing": [0, 1], "rcc": True, "cs": [{"k": "ExactlyK", "n": 1, "f": 3, "l": 0}]}}})
+    same2 = [1 if (k // 3) == (k % 3) and k % 3 != 0 else 0 for k in range(9)]
+    w0 = {"id": 2, "name": "f2", "window": {"deps": [0], "width": 2, "stride": 1, "start": 0, "kind": "window"},
+          "levels": [{"name": "yes", "w": 1, "table": same2}, {"name": "no", "w": 1, "table": [1 - x for x in same2]}]}
+    for cs in ([{"k": "ExactlyK", "n": 1, "f": 2, "l": 0}], [{"k": "AtMostKInARow", "n": 1, "f": 2, "l": 1}]):
+        out.append({"factors": [rcol, rsz, w0], "block": {"k": "repeat", "cs": [{"k": "MinimumTrials", "n": 8}],
+                    "b": {"k": "cross", "design": [0, 1, 2], "crossing": [0, 1], "rcc": True, "cs": cs}}})
     out.mark()
     # MinimumTrials on both blocks of a Nest (each counts in its own block's trials), also together with one on the Nest
     na, nb = _sf(0, ["A1", "A2"]), _sf(10, ["B1", "B2"])
